@@ -2,6 +2,7 @@ package main
 
 import (
 	"bytes"
+	"encoding/hex"
 	"fmt"
 	"os"
 	"path/filepath"
@@ -207,6 +208,100 @@ func cropModelCase(c *Ctx, req string, out *mp4.File, ms uint64) {
 	c.Case(cropRequest(key, c10CurIn, int(ms), out.Mdat.PayloadAbsoluteOffset()), cropAnswer(c10CurIn, out, mdatRanges(c10CurIn, out)))
 	c.Case(cropHdrRequest(key, c10CurIn, int(ms)), cropHdrAnswer(out))
 	c.Count("model.crophdr")
+}
+
+// ---- op "cropmdat": the bytes of the new mdat (writeMdat) against the model's `copied file (mergeRanges pieces)`
+
+var c10CurInBytes []byte // raw bytes of the file currently being cropped
+var c10CurKind string    // its input family (spec[0])
+var c10MdatSeen, c10MdatCases = map[string]int{}, map[string]int{}
+
+// mediaMdat returns the one non-empty mdat of a raw file (ok=false if there is none or more than one).
+func (rp *rawProg) mediaMdat() (m rawMdat, ok bool) {
+	n := 0
+	for _, x := range rp.mdats {
+		if x.end > x.payload {
+			m = x
+			n++
+		}
+	}
+	return m, n == 1
+}
+
+func hexOrDash(b []byte) string {
+	if len(b) == 0 {
+		return "-"
+	}
+	return hex.EncodeToString(b)
+}
+
+// cropMdatCase emits, for a sample of the successful crops of small files of every input family, one line that
+// sends the input's media bytes and tables to the model and compares the model's new mdat payload with the bytes
+// of the mdat in the file the tool wrote (mdat located by the harness' own box walker).
+func cropMdatCase(c *Ctx, req string, ms uint64, in, o *rawProg, out []byte) {
+	if c10CurIn == nil || c10CurIn.Moov == nil || c10CurInBytes == nil || len(o.mdats) != 1 {
+		return
+	}
+	m, ok := in.mediaMdat()
+	if !ok || m.end-m.payload > 4096 || m.end > len(c10CurInBytes) {
+		return
+	}
+	c10MdatSeen[c10CurKind]++
+	if c10MdatSeen[c10CurKind]%7 != 0 || c10MdatCases[c10CurKind] >= c.N(60, 400) {
+		return
+	}
+	c10MdatCases[c10CurKind]++
+	om := o.mdats[0]
+	p := []string{"cropmdat", "H=" + strings.ReplaceAll(req, " ", "/"), strconv.FormatUint(ms, 10), strconv.Itoa(om.payload),
+		strconv.Itoa(m.payload), hexOrDash(c10CurInBytes[m.payload:m.end])}
+	for _, trak := range c10CurIn.Moov.Traks {
+		t := tablesOfTrak(trak)
+		p = append(p, trak.Mdia.Hdlr.HandlerType, strconv.FormatUint(uint64(trak.Mdia.Mdhd.Timescale), 10), t.line())
+	}
+	c.Case(strings.Join(p, " "), hexOrDash(out[om.payload:om.end]))
+	c.Count("model.cropmdat")
+}
+
+// execCropMdat replays "crop <ms> <input spec>" and returns the payload of the output's mdat.
+func execCropMdat(req string) string {
+	f := strings.Fields(req)
+	if len(f) < 4 || f[0] != "crop" {
+		return "bad-op"
+	}
+	ms, err := strconv.ParseUint(f[1], 10, 64)
+	if err != nil {
+		return "bad-op"
+	}
+	var ans string
+	p := safe(func() {
+		data, _, err := progInputBytes(f[2:])
+		if err != nil {
+			ans = "input-err " + err.Error()
+			return
+		}
+		dir, done := scratchDir("c10b")
+		defer done()
+		in := filepath.Join(dir, "in.mp4")
+		if err := os.WriteFile(in, data, 0o644); err != nil {
+			ans = "input-err " + err.Error()
+			return
+		}
+		r, out := runCrop(dir, in, ms, "b")
+		if r.exit != 0 {
+			ans = "fail"
+			return
+		}
+		o, err := expandProg(out)
+		if err != nil || len(o.mdats) != 1 {
+			ans = "unparsable-output"
+			return
+		}
+		ans = hexOrDash(out[o.mdats[0].payload:o.mdats[0].end])
+	})
+	if p != "" {
+		return p
+	}
+	return ans
 }
 
 func elstDurs(trak *mp4.TrakBox) string {
